@@ -142,7 +142,7 @@ PostChecks(m, post) ==
 (* Segment start.                                                          *)
 (***************************************************************************)
 EmptyUni == [par |-> <<0>>, diff |-> <<1>>, time |-> <<0>>, btx |-> <<<<1>>>>, tin |-> <<<<>>>>,
-             tout |-> <<<<[a |-> 0, v |-> 0]>>>>, vsz |-> <<1>>]
+             tout |-> <<<<[a |-> 0, v |-> 0]>>>>, vsz |-> <<1>>, h |-> <<0>>]
 DummyCfg == [net |-> "regtest", thr |-> 1, api |-> TRUE, syncing |-> TRUE, gate |-> TRUE, lazy |-> FALSE, burn |-> FALSE,
              fees |-> [ub |-> 0, ur |-> 0, um |-> 0, bal |-> 0, balm |-> 0, pct |-> 0, pctm |-> 0,
                        hb |-> 0, hr |-> 0, hm |-> 0, sb |-> 0, sp |-> 0]]
